@@ -743,6 +743,7 @@ func (fr *frame) loopObligations(b *ssa.BasicBlock, ord int) {
 	if ls == nil {
 		return
 	}
+	fr.exitObligations(b, ord, ls)
 	if ls.Var != "" {
 		found := false
 		for _, ins := range b.Instrs {
@@ -822,6 +823,86 @@ func (fr *frame) loopObligations(b *ssa.BasicBlock, ord int) {
 			}
 		}
 	}
+}
+
+// rangeLenTerm is the bound a range-over-slice/array header compares (index+1) with ("" if b is no such header).
+func (fr *frame) rangeLenTerm(b *ssa.BasicBlock) string {
+	var ph *ssa.Phi
+	for _, ins := range b.Instrs {
+		if p, ok := ins.(*ssa.Phi); ok && p.Comment == "rangeindex" {
+			ph = p
+		}
+	}
+	if ph == nil {
+		return ""
+	}
+	var next ssa.Value
+	for _, ins := range b.Instrs {
+		if bo, ok := ins.(*ssa.BinOp); ok {
+			if bo.Op == token.ADD && bo.X == ph {
+				next = bo
+			}
+			if bo.Op == token.LSS && next != nil && bo.X == next {
+				switch y := bo.Y.(type) {
+				case *ssa.Const:
+					return fr.g.constTerm(y).S
+				default:
+					if t, ok := fr.env[bo.Y]; ok {
+						return t.S
+					}
+				}
+			}
+		}
+	}
+	return ""
+}
+
+// exitObligations: the `exit` clauses of a loop must hold on every edge into the loop's exit block (the successor
+// of the header outside the loop): the normal exit and every break.  Returns from inside the loop go elsewhere.
+func (fr *frame) exitObligations(b *ssa.BasicBlock, ord int, ls *LoopSpec) {
+	g := fr.g
+	if len(ls.Exits) == 0 {
+		return
+	}
+	body := fr.loopBody[b.Index]
+	var done *ssa.BasicBlock
+	for _, s := range b.Succs {
+		if !body[s.Index] {
+			done = s
+		}
+	}
+	if done == nil {
+		g.rejectf("loop %d of %s: the header has no exit edge, exit clauses cannot attach", ord, fr.key)
+		return
+	}
+	for _, p := range done.Preds {
+		if p != b && !fr.dominates(b.Index, p.Index) {
+			continue
+		}
+		ps := fr.out[p.Index]
+		if ps == nil {
+			continue
+		}
+		g.horizon = fr.outHz[p.Index]
+		if g.horizon == 0 {
+			g.horizon = 1
+		}
+		est := &state{cur: "(and " + ps.cur + " " + fr.edge[[2]int{p.Index, done.Index}] + ")", heap: ps.heap}
+		for _, ex := range ls.Exits {
+			sc := &specCtx{fr: fr, st: est, old: fr.entryState(), block: b, phiPred: -1, rangeLen: fr.rangeLenTerm(b)}
+			t := sc.tr(ex.Expr)
+			if sc.err != "" {
+				g.rejectf("loop %d exit [%s] of %s: %s", ord, ex.Label, fr.key, sc.err)
+				continue
+			}
+			kind := "break"
+			if p == b {
+				kind = "normal"
+			}
+			g.addObl(fr, est, "exit", fmt.Sprintf("loop%d[%s]/%s/from-b%s", ord, ex.Label, kind, edgeTag(fr, p, done)), fmt.Sprintf("loop %d exit condition %s (%s exit)", ord, ex.Label, kind), b.Instrs[0].Pos(), t)
+		}
+	}
+	g.horizon = 0
 }
 
 // autoRange is the built-in invariant of a range-over-slice/array loop for index value v: -1 <= v < len,
